@@ -38,6 +38,9 @@ func zzGenINode(depth int, k int) *ZZINode {
 	if depth == 0 || vn.Param("LEAN", 0) == 2 {
 		// leaves; LEAN=2: every body is 1 or a bare name (alias chains and cycles only)
 		n.Kind = vn.Pick(2)
+	} else if vn.Param("LEAN", 0) == 3 {
+		// unit, send, receive only (no aliases): mode propagation through three definitions
+		n.Kind = []int{zzUnit, zzSend, zzRecv}[vn.Pick(3)]
 	} else if vn.Param("LEAN", 0) == 1 {
 		// lean menu (used for 3-name alias chains / cycles): unit, name, send
 		n.Kind = vn.Pick(3)
